@@ -2,7 +2,8 @@
 # usage: tools/run_all.sh <quick|thorough> [seed]   -- runs every check in sequence, prints one line each
 cd "$(dirname "$0")/.."
 T=${1:-quick}; S=${2:-1}
+L=$(mktemp -d /tmp/runall.XXXXXX); trap 'rm -rf "$L"' EXIT
 for p in C01 C02 C03 C04 C05 C06 C07 C08 C09 C10 C11 C12 C13 C14 C15 C16 C17 C18 C19 C20; do
-  VERIF_SEED=$S ./check $p --tier $T > /tmp/runall-$p.log 2>&1; rc=$?
-  echo "$p rc=$rc $(grep -E '^(C[0-9]+ (quick|thorough):|VIOLATION|GENERATOR-HEALTH|INCONCLUSIVE)' /tmp/runall-$p.log | tr '\n' ' ' | cut -c1-300)"
+  VERIF_SEED=$S ./check $p --tier $T > $L/$p.log 2>&1; rc=$?
+  echo "$p rc=$rc $(grep -a -E '^(C[0-9]+ (quick|thorough):|VIOLATION|GENERATOR-HEALTH|INCONCLUSIVE)' $L/$p.log | tr '\n' ' ' | cut -c1-300)"
 done
